@@ -1,4 +1,4 @@
-\* intended design, behaviour profiles: 3 peers without addresses, responses (latency 0/3, size 0/4, history of 2), claimed / measured bandwidth, 5 operations
+\* intended design, behaviour profiles: 3 peers without addresses, responses (latency 0/3, size 0/4, history of 2), claimed / measured bandwidth, 4 operations
 SPECIFICATION Spec
 CONSTANTS
   MaxHistory = 2
@@ -14,7 +14,7 @@ CONSTANTS
   AgeIsMax = FALSE
   MinObs = 1
   MaxT = 0
-  MaxOps = 5
+  MaxOps = 4
   OpSet = {"joinnoip", "leave", "respond", "claim", "measure", "analyze", "clear"}
   Lats = {0, 3}
   Sizes = {0, 4}
@@ -32,5 +32,5 @@ CONSTANTS
 INVARIANTS TypeOK BurstExact JoinsOrdered BurstDistinctPeers PrefixExact PrefixNamesSharers EvidenceNamesPresentOnly
            IdenticalHistoriesSimilar SimilarityBounded AsymSound AnalysisIdempotent GroupsDisjoint AnalyzeCovers GroupsOnlyByAnalysis
            SuspectedIffMember RiskMonotoneUntilClear OverallIsSuspectedFraction GroupCountBounded ClearEmpties CleanupOnlyOld
-           RecordsAreHistory NoPanic
+           RecordsAreHistory RecordsWithinWindow NoPanic
 CHECK_DEADLOCK FALSE
